@@ -101,4 +101,228 @@ theorem forRange_eq_foldlM {σ τ : Type} (φ : τ → σ) (k : Nat) (g : τ →
   unfold Loop.forRange
   exact forGo_eq_foldlM φ k g f 0 s (by intro i h s'; simpa using hf i h s')
 
+
+/-! ### `row_nz` (used by `select_pivot`) -/
+
+theorem row_nz_eq' (e : EOps α) (dbg : Bool) (s : St α m n) (i : Fin m) :
+    SnfCalc.row_nz e dbg (ofSt s) i.1 = ok (rowNz e s.t i) := by
+  unfold SnfCalc.row_nz rowNz
+  simp only [ofSt, Dense.row, i.2, dite_true, bind_ok, count_foldl, Nat.zero_add, List.filter_map, List.length_map]
+  rfl
+
+/-! ### generic list lemmas -/
+
+theorem foldlM_ok {ι σ : Type} (st : σ → ι → σ) (l : List ι) (a : σ) :
+    l.foldlM (fun a i => (ok (st a i) : Res σ)) a = ok (l.foldl st a) := by
+  induction l generalizing a with
+  | nil => rfl
+  | cons x xs ih => simp [List.foldlM_cons, ih]
+
+theorem foldl_filter {ι σ : Type} (p : ι → Bool) (f : σ → ι → σ) (l : List ι) (a : σ) :
+    l.foldl (fun acc i => if p i then f acc i else acc) a = (l.filter p).foldl f a := by
+  induction l generalizing a with
+  | nil => rfl
+  | cons x xs ih =>
+    cases hp : p x <;> simp [List.filter_cons, hp, ih]
+
+theorem forGo_pure {σ : Type} (st : σ → Nat → σ) (d b : Nat) (a : σ) :
+    Loop.forGo (fun k acc => ok (Ctl.next (st acc k))) d b a = ok ((List.range' b d).foldl st a, true) := by
+  induction d generalizing b a with
+  | zero => rfl
+  | succ d ih => simp [Loop.forGo, List.range', ih]
+
+theorem filterM_ok {ι : Type} (p : ι → Res Bool) (q : ι → Bool) (l : List ι) (h : ∀ x ∈ l, p x = ok (q x)) :
+    Iter.filterM p l = ok (l.filter q) := by
+  induction l with
+  | nil => rfl
+  | cons x xs ih =>
+    have hx := h x (by simp)
+    have hxs := ih (fun y hy => h y (by simp [hy]))
+    simp only [Iter.filterM, hx, hxs, bind_ok, List.filter_cons]
+
+theorem mapM_ok {ι κ : Type} (f : ι → Res κ) (g : ι → κ) (l : List ι) (h : ∀ x ∈ l, f x = ok (g x)) :
+    Iter.mapM f l = ok (l.map g) := by
+  induction l with
+  | nil => rfl
+  | cons x xs ih =>
+    have hx := h x (by simp)
+    have hxs := ih (fun y hy => h y (by simp [hy]))
+    simp only [Iter.mapM, hx, hxs, bind_ok, List.map_cons]
+
+/-- "first minimal" fold with an optional accumulator = `Iter.minBy` -/
+theorem minBy_fold {κ : Type} (key : κ → Nat) (l : List κ) :
+    l.foldl (fun (acc : Option κ) y => match acc with
+        | none => some y
+        | some b => if key y < key b then some y else acc) none =
+      Iter.minBy (fun a b => compare (key a) (key b)) l := by
+  cases l with
+  | nil => rfl
+  | cons x xs =>
+    simp only [List.foldl_cons, Iter.minBy]
+    generalize x = b
+    induction xs generalizing b with
+    | nil => rfl
+    | cons y ys ih =>
+      simp only [List.foldl_cons]
+      by_cases h : key y < key b
+      · have hc : compare (key b) (key y) = .gt := Nat.compare_eq_gt.2 h
+        simp [h, hc, ih]
+      · have hc : ¬ compare (key b) (key y) = .gt := fun hh => h (Nat.compare_eq_gt.1 hh)
+        have : (compare (key b) (key y) == Ordering.gt) = false := by simpa using hc
+        simp [h, this, ih]
+
+
+theorem range'_split (s a b : Nat) : List.range' s (a + b) = List.range' s a ++ List.range' (s + a) b := by
+  induction a generalizing s with
+  | zero => simp
+  | succ a ih =>
+    rw [show a + 1 + b = (a + b) + 1 by omega]
+    simp only [List.range'_succ, List.cons_append]
+    rw [ih (s + 1), show s + 1 + a = s + (a + 1) by omega]
+
+/-! ### `select_pivot` -/
+
+section pivot
+variable (e : EOps α) (T : Mat α m n) (j : Fin n) (below : Nat)
+
+def qN (k : Nat) : Bool := if h : k < m then !e.isZero (T.get ⟨k, h⟩ j) else false
+def rN (k : Nat) : Nat := if h : k < m then rowNz e T ⟨k, h⟩ else 0
+def keyStep (acc : Option (Nat × Nat)) (y : Nat × Nat) : Option (Nat × Nat) :=
+  match acc with
+  | none => some y
+  | some b => if y.2 < b.2 then some y else acc
+def stepN (acc : Option (Nat × Nat)) (k : Nat) : Option (Nat × Nat) :=
+  if below ≤ k && qN e T j k then keyStep acc (k, rN e T k) else acc
+/-- the step function of the model's `selectPivot` -/
+def stepF (acc : Option (Fin m × Nat)) (i : Fin m) : Option (Fin m × Nat) :=
+  if below ≤ i.1 && !e.isZero (T.get i j) then
+    let k := rowNz e T i
+    match acc with
+    | none => some (i, k)
+    | some (_, k0) => if k < k0 then some (i, k) else acc
+  else acc
+def phi (acc : Option (Fin m × Nat)) : Option (Nat × Nat) := acc.map fun p => (p.1.1, p.2)
+
+theorem selectPivot_def : selectPivot e T below j = ((List.finRange m).foldl (stepF e T j below) none).map (·.1) := rfl
+
+theorem phi_step (acc : Option (Fin m × Nat)) (k : Nat) (h : k < m) :
+    phi (stepF e T j below acc ⟨k, h⟩) = stepN e T j below (phi acc) k := by
+  unfold stepF stepN qN rN keyStep phi
+  by_cases hb : below ≤ k
+  · cases hz : e.isZero (T.get ⟨k, h⟩ j)
+    · cases acc with
+      | none => simp [hb, hz, h]
+      | some p =>
+        obtain ⟨i0, k0⟩ := p
+        by_cases hlt : rowNz e T ⟨k, h⟩ < k0 <;> simp [hb, hz, h, hlt]
+    · simp [hb, hz, h]
+  · simp [hb]
+
+theorem hand_nat :
+    phi ((List.finRange m).foldl (stepF e T j below) none) = (List.range' 0 m).foldl (stepN e T j below) none := by
+  have h1 := forGo_eq_foldlM (phi (m := m)) m (fun acc i => ok (stepF e T j below acc i))
+    (fun k a => ok (Ctl.next (stepN e T j below a k))) 0 none (by
+      intro i h s
+      simp only [Nat.zero_add, bind_ok, phi_step])
+  rw [forGo_pure, foldlM_ok] at h1
+  simp only [bind_ok, Res.ok.injEq, Prod.mk.injEq, and_true] at h1
+  exact h1.symm
+
+theorem stepN_noop (l : List Nat) (a : Option (Nat × Nat)) (h : ∀ k ∈ l, k < below) :
+    l.foldl (stepN e T j below) a = a := by
+  induction l generalizing a with
+  | nil => rfl
+  | cons x xs ih =>
+    have hx : ¬ below ≤ x := Nat.not_le.2 (h x (by simp))
+    simp only [List.foldl_cons]
+    rw [show stepN e T j below a x = a by simp [stepN, hx]]
+    exact ih a (fun k hk => h k (by simp [hk]))
+
+theorem stepN_above (l : List Nat) (a : Option (Nat × Nat)) (h : ∀ k ∈ l, below ≤ k) :
+    l.foldl (stepN e T j below) a =
+      ((l.filter (qN e T j)).map fun k => (k, rN e T k)).foldl keyStep a := by
+  rw [List.foldl_map, ← foldl_filter]
+  induction l generalizing a with
+  | nil => rfl
+  | cons x xs ih =>
+    have hx : below ≤ x := h x (by simp)
+    simp only [List.foldl_cons]
+    rw [show stepN e T j below a x = (if qN e T j x then keyStep a (x, rN e T x) else a) by simp [stepN, hx]]
+    exact ih _ (fun k hk => h k (by simp [hk]))
+
+theorem keyStep_minBy (l : List (Nat × Nat)) :
+    l.foldl keyStep none = Iter.minBy (fun a b => compare a.2 b.2) l := by
+  have := minBy_fold (fun p : Nat × Nat => p.2) l
+  rw [← this]
+  congr 1
+  funext acc y
+  cases acc <;> rfl
+
+theorem nat_fold_eq :
+    (List.range' 0 m).foldl (stepN e T j below) none =
+      Iter.minBy (fun a b => compare a.2 b.2)
+        (((List.range' below (m - below)).filter (qN e T j)).map fun k => (k, rN e T k)) := by
+  rw [← keyStep_minBy]
+  by_cases hb : below ≤ m
+  · have hsplit := range'_split 0 below (m - below)
+    rw [show below + (m - below) = m by omega, Nat.zero_add] at hsplit
+    rw [hsplit, List.foldl_append, stepN_noop e T j below _ none (by
+      intro k hk; have := List.mem_range'_1.1 hk; omega)]
+    exact stepN_above e T j below _ none (by intro k hk; have := List.mem_range'_1.1 hk; omega)
+  · rw [show m - below = 0 by omega]
+    simp only [List.range'_zero, List.filter_nil, List.map_nil, List.foldl_nil]
+    exact stepN_noop e T j below _ none (by intro k hk; have := List.mem_range'_1.1 hk; omega)
+
+end pivot
+
+theorem select_pivot_eq' (e : EOps α) (dbg : Bool) (s : St α m n) (below : Nat) (j : Fin n) :
+    SnfCalc.select_pivot e dbg (ofSt s) below j.1 = ok ((selectPivot e s.t below j).map Fin.val) := by
+  unfold SnfCalc.select_pivot
+  have hf : Iter.filterM (SnfCalc.select_pivot_closure1 (m := m) (n := n) e dbg (ofSt s) j.1)
+      (List.range' below (m - below)) = ok ((List.range' below (m - below)).filter (qN e s.t j)) := by
+    apply filterM_ok
+    intro k hk
+    have hk' : k < m := by have := List.mem_range'_1.1 hk; omega
+    have := get_in s.t ⟨k, hk'⟩ j
+    simp only [] at this
+    simp [SnfCalc.select_pivot_closure1, ofSt, this, qN, hk']
+  have hm : Iter.mapM (SnfCalc.select_pivot_closure2 (m := m) (n := n) e dbg (ofSt s))
+      ((List.range' below (m - below)).filter (qN e s.t j)) =
+      ok (((List.range' below (m - below)).filter (qN e s.t j)).map fun k => (k, rN e s.t k)) := by
+    apply mapM_ok
+    intro k hk
+    have hk1 := (List.mem_filter.1 hk).1
+    have hk' : k < m := by have := List.mem_range'_1.1 hk1; omega
+    have := row_nz_eq' e dbg s ⟨k, hk'⟩
+    simp only [] at this
+    simp [SnfCalc.select_pivot_closure2, this, rN, hk']
+  simp only [hf, hm, bind_ok]
+  rw [selectPivot_def, Option.map_map]
+  have h4 : (SnfCalc.select_pivot_closure4 (m := m) (n := n) e dbg) = fun p : Nat × Nat => p.1 := by
+    funext p; cases p; rfl
+  have h3 : (SnfCalc.select_pivot_closure3 (m := m) (n := n) e dbg) = fun a b : Nat × Nat => compare a.2 b.2 := rfl
+  rw [h4, h3, ← nat_fold_eq e s.t j below, ← hand_nat e s.t j below]
+  simp [phi, Option.map_map, Function.comp_def]
+
+
+/-- a `for` body that never breaks against a monadic fold over the `Nat` list of the indices -/
+theorem forGo_eq_foldlM_range {σ τ : Type} (φ : τ → σ) (g : τ → Nat → Res τ) (f : Nat → σ → Res (Ctl σ)) :
+    ∀ (d b : Nat) (s : τ),
+      (∀ (k : Nat) (s : τ), b ≤ k → k < b + d → f k (φ s) = (g s k >>= fun s' => ok (Ctl.next (φ s')))) →
+      Loop.forGo f d b (φ s) = ((List.range' b d).foldlM g s >>= fun s' => ok (φ s', true)) := by
+  intro d
+  induction d with
+  | zero => intro b s _; simp [Loop.forGo]
+  | succ d ih =>
+    intro b s hf
+    have h0 := hf b s (Nat.le_refl b) (by omega)
+    unfold Loop.forGo
+    rw [h0, List.range'_succ, List.foldlM_cons]
+    cases hg : g s b with
+    | ok s1 =>
+      simp only [bind_ok]
+      exact ih (b + 1) s1 (fun k s' h1 h2 => hf k s' (by omega) (by omega))
+    | panic => rfl
+    | err => rfl
+
 end Yuiv.C09Gen
